@@ -49,6 +49,10 @@ CHECKS = {
          "Skeleton only (guards, order, sortedness, duplicate-freedom by construction, literals, keys); the set equation as a function of its inputs is value-level and not claimed.",
          "Trusted: go/ssa, sort.Strings, text/template/parse, yaml.v2 key conventions; relies on C12 (injective tables) and C16 (Name = table[Num]).",
          "DESIGN.md section 4, C18"),
+ "C13": ("other", "effect analysis: purpose-built inclusion-based points-to (abstract CALLER/GLOBAL/OTHER memory) over everything reachable from the exported API, classification of every range over a map as order-(in)sensitive, no-concurrency-construct scan",
+         "All reachable code on all paths: no write can touch caller-owned or package-level memory (one whitelisted cell), no order-sensitive map iteration; determinism, input immutability and race-freedom for distinct policy values follow.",
+         "Trusted: go/ssa; the points-to analysis is a field- and context-insensitive over-approximation with explicit summaries for builtins, sort/slices mutators and read-only packages; an unsummarised call receiving caller/global memory fails the check.",
+         "DESIGN.md section 4, C13"),
 }
 NOT_YET = "check under construction in this session (see DESIGN.md section 4 for the planned rules); not claimed until it runs"
 ALL = ["C%02d" % i for i in range(1, 20)]
